@@ -35,7 +35,8 @@ func checkPlanFor(prop, tier string) *checkPlan {
 	case "C07":
 		return &checkPlan{Prop: prop, Level: "exploration", BudgetS: n(240, 2400), Measure: "selection_pairs",
 			Batches: []batchSpec{
-				{Label: "hist", Engine: "hist", Prop: "C07", Runs: n(320, 16000), FaultFree: true},
+				{Label: "hist", Engine: "hist", Prop: "C07", Runs: n(320, 16000), FaultFree: true, Share: 3},
+				{Label: "synth-selections", Engine: "hist", Prop: "C07", Mode: "synthsel:%d/1", Runs: n(96, 3000), FaultFree: true},
 			},
 			Rule:       "one run = one seeded history in which the same object bytes are linted under several registries derived by nested Filter calls (singletons, all-but-one, prefixes, by source, by regexp, random subsets), on the same parsed object and on fresh twins, in both orders; every selected lint's (status, details) must equal the fresh-process single-lint reference and the result of every other selection in the run; keys must equal the model's selection; flags of a narrower run must be raised by the wider run. distinct_nontrivial = distinct (object, configuration, selection A, selection B) pairs compared with A != B.",
 			Assumption: append(histAssume, "weak fit (DESIGN 4.4): the history varied is the sequence of other lint executions sharing one parsed object"),
